@@ -351,7 +351,7 @@ func init() {
 
 func init() {
 	properties["C05"] = &property{
-		explanation: "Decides the 'never modify an operand that is not the receiver' clause of C05 by MODSET.mat — parameter write summaries of every function reachable from mat (SSA, level-sensitive points-to with escape summaries, VTA call graph, noasm bodies for the kernels): no exported function or method of mat may write through a matrix-typed parameter other than the receiver or a parameter named dst (187 parameters; accessor calls through the read-only Matrix interfaces are trusted not to write). It also decides the 'partial overlap panics instead of returning' mechanism of C05 for every exported pointer-receiver method of the overlap-aware mat types (Dense, VecDense, SymDense, TriDense, CDense and the band/diag/tridiag types; ...To(dst) methods use dst as destination): OVERLAP.guard — a forward must-analysis over each method's CFG proves that at every kernel write of the destination (blas64/lapack64/asm call, copy or Data store) every operand whose raw storage is read by that same statement has, on every path, passed a checkOverlap*/isolatedWorkspace guard, an identity test (recv == operand edge), the isolated-workspace edge (restore != nil), or delegation to a method that guards it; a failed type assertion makes the guard vacuous (no storage to compare). OVERLAP.iso — every isolatedWorkspace restore closure is deferred or called. OVERLAP.elemsize — in both the default and the safe build the address difference of two slices is divided by the size of exactly their element type. Copy/Clone methods (memmove semantics) are out of scope. Does NOT decide correctness of the overlap predicate's arithmetic (rectanglesOverlap, offset), Dense.Copy's direction choice, or generic At/set loops over operands of unknown type; user-defined Matrix implementations whose accessors write are outside MODSET's assumption.",
+		explanation: "Decides the 'never modify an operand that is not the receiver' clause of C05 by MODSET.mat — parameter write summaries of every function reachable from mat (SSA, level-sensitive points-to with escape summaries, VTA call graph, noasm bodies for the kernels): no exported function or method of mat may write through a matrix-typed parameter other than the receiver or a parameter named dst (187 parameters; accessor calls through the read-only Matrix interfaces are trusted not to write). It also decides the 'partial overlap panics instead of returning' mechanism of C05 for every exported pointer-receiver method of the overlap-aware mat types (Dense, VecDense, SymDense, TriDense, CDense and the band/diag/tridiag types; ...To(dst) methods use dst as destination): OVERLAP.guard — a forward must-analysis over each method's CFG proves that at every kernel write of the destination (blas64/lapack64/asm call, copy or Data store) every operand whose raw storage is read by that same statement has, on every path, passed a checkOverlap*/isolatedWorkspace guard, an identity test (recv == operand edge), the isolated-workspace edge (restore != nil), or delegation to a method that guards it; a failed type assertion makes the guard vacuous (no storage to compare). OVERLAP.iso — every isolatedWorkspace restore closure is deferred or called. OVERLAP.elemsize — in both the default and the safe build the address difference of two slices is divided by the size of exactly their element type. OVERLAP.symmetric — the two overlap predicates (checkOverlap, checkOverlapComplex) hand rectanglesOverlap only arguments that treat both operands alike, apart from the columns they swap explicitly (overlap is a symmetric relation; `a.Stride` for `min(a.Stride, b.Stride)` is reported); TWIN.shadow — checkOverlapComplex ('generate this file from shadow.go') is the image of checkOverlap. Copy/Clone methods (memmove semantics) are out of scope. Does NOT decide correctness of the modular arithmetic inside rectanglesOverlap and offset, Dense.Copy's direction choice, or generic At/set loops over operands of unknown type; user-defined Matrix implementations whose accessors write are outside MODSET's assumption.",
 		assumptions: commonAssumptions,
 		run: func(tier string, res *core.Result) {
 			r := overlap.Run(def)
@@ -369,6 +369,10 @@ func init() {
 				es.Floor("address_difference_divisions", 2)
 				res.Merge(es)
 			}
+			res.Merge(overlap.RunSymmetric(def))
+			sh := twin.Run(twin.Which{Shadow: true})
+			sh.Floor("shadow_twin_pairs", 1)
+			res.Merge(sh)
 			if tier == "thorough" {
 				for _, c := range []core.Config{{Tags: "safe"}, {Tags: "bounds"}, {GOARCH: "386"}} {
 					res.Merge(overlap.Run(c))
@@ -571,6 +575,8 @@ func dump(argv []string) {
 	case "dspx":
 		res = dspx.RunReset(def)
 		res.Merge(dspx.RunWindow(def))
+	case "symmetric":
+		res = overlap.RunSymmetric(def)
 	case "elemsize":
 		res = overlap.RunElemSize(def)
 		res.Merge(overlap.RunElemSize(core.Config{Tags: "safe"}))
@@ -600,7 +606,7 @@ func dump(argv []string) {
 	case "regen":
 		res = twin.RunRegen()
 	case "twin":
-		res = twin.Run(twin.Which{Generated: true, Bounds: true, ReuseAs: true, R3: true, Siblings: []string{"graph/iterator"}, SiblingState: []string{"graph/iterator"}})
+		res = twin.Run(twin.Which{Generated: true, Bounds: true, ReuseAs: true, R3: true, Shadow: true, Siblings: []string{"graph/iterator"}, SiblingState: []string{"graph/iterator"}})
 	case "args":
 		if argv[1] == "./lapack/gonum" {
 			res = args.Run(def, core.Pkgs(argv[1:]...), lapackArgs)
